@@ -40,13 +40,12 @@ pub open spec fn op_handle_goto(v: NavV, uri: Uri, line: u32, ch: u32) -> Option
 }
 
 // ---- textDocument/references -------------------------------------------------------------------------------
-/// ASSUMED callee (to be replaced by `//@stub position find_fixture_at_position`): the fixture NAME at a position
-pub uninterp spec fn name_at(cache: Map<PV, String>, defs: Map<Seq<char>, Seq<DefV>>, uses: Map<PV, Seq<UseV>>,
-                             file: PV, line: u32, ch: u32) -> Option<Seq<char>>;
-/// ASSUMED callee (to be replaced by `//@stub position find_fixture_references`): all usages called `name`, over
-/// all files (hash-ordered file enumeration: the order between files is not determined by the view; stated here
-/// as a function because each handler calls it once)
-pub uninterp spec fn refs_named(uses: Map<PV, Seq<UseV>>, name: Seq<char>) -> Seq<UseV>;
+/// the fixture NAME at a position = what find_fixture_at_position computes (contract PROVED in unit position:
+/// op_name_at, prelude/position_spec.rs)
+pub open spec fn name_at(cache: Map<PV, String>, defs: Map<Seq<char>, Seq<DefV>>, uses: Map<PV, Seq<UseV>>,
+                         file: PV, line: u32, ch: u32) -> Option<Seq<char>> {
+    op_name_at(cache, defs, uses, file, line, ch)
+}
 
 /// the location a listed usage gets: its line, columns start_char..end_char (`as u32`: see col_fits)
 pub open spec fn use_range(x: UseV) -> Range { mk_range(lsp_line(x.line), x.start_char as u32, lsp_line(x.line), x.end_char as u32) }
@@ -73,16 +72,28 @@ pub open spec fn refs_target(v: NavV, n: Seq<char>, p: PV, line: u32, ch: u32) -
         None => first_match(bucket(v.defs, n), p_def_line(p, line as int + 1)),
     }
 }
-/// (definition to include, usages to list) as the handler selects them; None: no path / no fixture name there
-pub open spec fn refs_sel(v: NavV, uri: Uri, line: u32, ch: u32) -> Option<(Option<DefV>, Seq<UseV>)> {
+/// the fixture name the references handler works with; None: the URI has no path / no fixture name at the position
+pub open spec fn refs_name(v: NavV, uri: Uri, line: u32, ch: u32) -> Option<Seq<char>> {
     match uri_path(uri) {
         None => None,
-        Some(p) => match name_at(v.cache, v.defs, v.uses, p, line, ch) {
-            None => None,
-            Some(n) => match refs_target(v, n, p, line, ch) {
-                Some(d) => Some((Some(d), op_refs(v.defs, v.byfix, v.provf, d))),
-                None => Some((None::<DefV>, refs_named(v.uses, n))),      // by-name fallback
-            },
+        Some(p) => name_at(v.cache, v.defs, v.uses, p, line, ch),
+    }
+}
+/// the definition it determines (None with a name: the by-name fallback is taken)
+pub open spec fn refs_def(v: NavV, uri: Uri, line: u32, ch: u32) -> Option<DefV> {
+    match refs_name(v, uri, line, ch) {
+        None => None,
+        Some(n) => refs_target(v, n, uri_path(uri)->0, line, ch),
+    }
+}
+/// (definition to include, usages to list) as the handler selects them; `fl` = the list find_fixture_references
+/// returned, used in the by-name fallback only (it is not a function of the view: see references_post)
+pub open spec fn refs_sel(v: NavV, uri: Uri, line: u32, ch: u32, fl: Seq<UseV>) -> Option<(Option<DefV>, Seq<UseV>)> {
+    match refs_name(v, uri, line, ch) {
+        None => None,
+        Some(n) => match refs_def(v, uri, line, ch) {
+            Some(d) => Some((Some(d), op_refs(v.defs, v.byfix, v.provf, d))),
+            None => Some((None::<DefV>, fl)),      // by-name fallback
         },
     }
 }
@@ -95,11 +106,26 @@ pub open spec fn locs_of_sel(uc: UriCache, od: Option<DefV>, us: Seq<UseV>) -> O
         None => if us.len() == 0 { None } else { Some(ref_locs(uc, us, od)) },
     }
 }
-pub open spec fn op_handle_references(v: NavV, uri: Uri, line: u32, ch: u32) -> Option<Seq<Location>> {
-    match refs_sel(v, uri, line, ch) {
+pub open spec fn op_handle_references(v: NavV, uri: Uri, line: u32, ch: u32, fl: Seq<UseV>) -> Option<Seq<Location>> {
+    match refs_sel(v, uri, line, ch, fl) {
         None => None,
         Some(s) => locs_of_sel(v.uc, s.0, s.1),
     }
+}
+/// in the by-name fallback, fl is what find_fixture_references may return (contract PROVED in unit position): the
+/// usages carrying the name, file by file, for SOME duplicate-free enumeration of the files (the hash order)
+pub open spec fn by_name_ok(v: NavV, uri: Uri, line: u32, ch: u32, fl: Seq<UseV>) -> bool {
+    refs_name(v, uri, line, ch) is Some && refs_def(v, uri, line, ch) is None
+        ==> refs_by_name_post(v.uses, refs_name(v, uri, line, ch)->0, fl)
+}
+pub open spec fn references_post_fl(v: NavV, uri: Uri, line: u32, ch: u32, r: jsonrpc::Result<Option<Vec<Location>>>, fl: Seq<UseV>) -> bool {
+    by_name_ok(v, uri, line, ch, fl)
+    && (sel_fits(refs_sel(v, uri, line, ch, fl)) ==> opt_vec_view(r) == op_handle_references(v, uri, line, ch, fl))
+}
+/// L1 postcondition of handle_references: a function of the view whenever a definition is determined; in the by-name
+/// fallback, relational (SOME admissible by-name list)
+pub open spec fn references_post(v: NavV, uri: Uri, line: u32, ch: u32, r: jsonrpc::Result<Option<Vec<Location>>>) -> bool {
+    exists|fl: Seq<UseV>| #[trigger] references_post_fl(v, uri, line, ch, r, fl)
 }
 pub open spec fn uses_fit(us: Seq<UseV>) -> bool { forall|i: int| 0 <= i < us.len() ==> line_fits((#[trigger] us[i]).line) }
 pub open spec fn sel_fits(s: Option<(Option<DefV>, Seq<UseV>)>) -> bool { s is Some ==> def_fits((s->0).0) && uses_fit((s->0).1) }
